@@ -1,0 +1,4 @@
+// Package verifhook exposes internal seams to the external verification harness.
+// Everything except this file is guarded by the build tag `verif`; without the tag
+// the package is empty.
+package verifhook
